@@ -66,9 +66,12 @@ Proof.
   destruct (_ && negb (Nat.eqb c 0)); [apply SInv_start_rec|]; now apply SInv_stop_rec.
 Qed.
 
-Lemma SInv_set_routine_locked s f arg : SInv s -> SInv (fst (set_routine_locked repaired s f arg)).
+Lemma SInv_norm s : SInv s -> SInv (norm s).
+Proof. intros H. unfold norm. destruct (root_dead s (kctx s)); [apply (SInv_ext s); auto | exact H]. Qed.
+
+Lemma SInv_set_routine_locked_n s f arg : SInv s -> SInv (fst (set_routine_locked_n repaired s f arg)).
 Proof.
-  intros H. unfold set_routine_locked.
+  intros H. unfold set_routine_locked_n.
   set (ph := match routine s with Some p => _ | None => (s, None, false) end).
   assert (Hph : SInv (fst (fst ph))).
   { unfold ph. destruct (routine s) as [p|]; [|exact H]. cbn [fst].
@@ -95,9 +98,12 @@ Proof.
   - destruct wasReset; [apply SInv_do_bcast|]; exact Hph.
 Qed.
 
-Lemma SInv_restart_routine s : SInv s -> SInv (fst (restart_routine repaired s)).
+Lemma SInv_set_routine_locked s f arg : SInv s -> SInv (fst (set_routine_locked repaired s f arg)).
+Proof. intros H. unfold set_routine_locked. now apply SInv_set_routine_locked_n, SInv_norm. Qed.
+
+Lemma SInv_restart_routine_n s : SInv s -> SInv (fst (restart_routine_n repaired s)).
 Proof.
-  intros H. unfold restart_routine. destruct (routine s) as [r|]; [|exact H].
+  intros H. unfold restart_routine_n. destruct (routine s) as [r|]; [|exact H].
   set (x := getr s r). set (s1 := cancel_inst s (rcancel x)).
   assert (X1 : getr s1 r = x) by (unfold s1, getr; destruct (cancel_inst_other s (rcancel x)) as [_ [_ [C _]]]; rewrite C; reflexivity).
   assert (H1 : SInv s1) by (now apply SInv_cancel_inst).
@@ -107,6 +113,9 @@ Proof.
   destruct (Nat.eqb (kctx s2) 0); [exact H2|]. cbn [fst]. apply SInv_do_bcast, SInv_start_rec.
   destruct H2 as [A B]. apply SInv_setr; [split; assumption | cbn; apply A | cbn; intros Hb; now apply B].
 Qed.
+
+Lemma SInv_restart_routine s : SInv s -> SInv (fst (restart_routine repaired s)).
+Proof. intros H. unfold restart_routine. now apply SInv_restart_routine_n, SInv_norm. Qed.
 
 Lemma SInv_update_sr s : SInv s -> SInv (fst (update_sr repaired s)).
 Proof.
@@ -185,11 +194,13 @@ Proof.
   - now apply SInv_timer_cb.
   - apply (SInv_ext s); auto.
   - unfold wait_section. destruct (nth_error (waiters s) a) as [w|]; [|exact H]. destruct (wpcv w); try exact H.
-    destruct (getch (b s)) as [b' ch]. destruct (match routine s with Some r => _ | None => _ end); [|destruct (wcanc w)]; apply (SInv_ext s); auto.
+    pose proof (SInv_norm s H) as Hn. unfold wait_sect_at.
+    destruct (getch (b (norm s))) as [b' ch]. destruct (match routine (norm s) with Some r => _ | None => _ end); [|destruct (wcanc w)]; apply (SInv_ext (norm s)); auto.
   - unfold wait_wake. destruct (nth_error (waiters s) a) as [w|]; [|exact H]. destruct (wpcv w); try exact H.
     destruct (closed (b s) ch); [apply (SInv_ext s); auto | exact H].
   - unfold wait_cancel. destruct (nth_error (waiters s) a) as [w|]; [|exact H]. destruct (wpcv w); try exact H; apply (SInv_ext s); auto.
   - unfold wait_errch. destruct (nth_error (waiters s) a) as [w|]; [|exact H]. destruct (wpcv w); try exact H; apply (SInv_ext s); auto.
+  - apply (SInv_ext s); auto.
 Qed.
 
 Lemma SInv_init v c n sc : SInv (init v c n sc).
